@@ -124,3 +124,20 @@ func RunAll(max int) (n int, empty bool) {
 	}
 	return n, Pending() == 0
 }
+
+// TakeAll removes and returns every queued task (oldest first) without running it. Together with
+// Put and Task.Run it lets a harness hold tasks back across events.
+func TakeAll() []*Task {
+	mu.Lock()
+	defer mu.Unlock()
+	out := queue
+	queue = nil
+	return out
+}
+
+// Put appends previously taken tasks to the queue (they keep their IDs and labels).
+func Put(ts []*Task) {
+	mu.Lock()
+	defer mu.Unlock()
+	queue = append(queue, ts...)
+}
